@@ -35,5 +35,13 @@ ser_hash!(Ed25519KeyHash, ScriptHash);
 pub type SubCoin = UnitInterval;
 ser_opaque!(PlutusData);
 pub type SlotBigNum = BigNum;
-ser_opaque!(Credentials);
 pub type DeltaCoin = Int;
+use std::rc::Rc;
+use std::collections::{HashSet, BTreeSet};
+opaque_types!(DedupIndex);
+pub enum CborSetType { Tagged, Untagged }
+/// `element.serialize(..)` on an `&Rc<T>` auto-derefs to T's encoder
+impl<T: Ser> Ser for Rc<T> {
+    open spec fn enc(&self) -> Seq<Tok> { (**self).enc() }
+    #[verifier::external_body] fn serialize(&self, serializer: &mut Serializer) -> (r: Result<(), CborError>) { unimplemented!() }
+}
